@@ -98,7 +98,7 @@ def main():
         ],
         checks=checks,
         not_applicable=na,
-        notes='fix: commits in /repo: 3e1ad5f 0a162fa 7d21090 873de0f (see known_findings.json). exit code 2 = undecided (never a VIOLATION).',
+        notes='fix: commits in /repo: 3e1ad5f 0a162fa 7d21090 873de0f f20979d (see known_findings.json). exit code 2 = undecided (never a VIOLATION).',
     )
     with open(os.path.join(VERIF, 'MANIFEST.json'), 'w') as f:
         json.dump(m, f, indent=1)
